@@ -30,6 +30,20 @@ type taskSession struct {
 	frag    string
 	pad     int
 	window  int // items in flight at most (0 = unbounded; sessions in which points are dropped cannot count outputs)
+	// restart: stop the task after the points, start it again from the task snapshot taken before the stop
+	// (TaskStore.LoadSnapshot -> UDFNode -> udf.Restore) and send the points once more: a second trace
+	restart bool
+}
+
+// snapStore is the TaskStore of a restart session.
+type snapStore struct {
+	snap *kapacitor.TaskSnapshot
+}
+
+func (s *snapStore) SaveSnapshot(string, *kapacitor.TaskSnapshot) error { return nil }
+func (s *snapStore) HasSnapshot(string) bool                            { return s.snap != nil }
+func (s *snapStore) LoadSnapshot(string) (*kapacitor.TaskSnapshot, error) {
+	return s.snap, nil
 }
 
 func ingestible() (pts []imodels.Point, skipped int) {
@@ -56,8 +70,24 @@ func ingestible() (pts []imodels.Point, skipped int) {
 	return pts, skipped
 }
 
-func runTaskSession(ts taskSession, r *rt.Run) (*recorder, error) {
+func runTaskSession(ts taskSession, r *rt.Run) ([]*recorder, error) {
+	if !ts.restart {
+		rec, _, err := runTaskOnce(ts, r, nil)
+		return []*recorder{rec}, err
+	}
+	// first life: the last snapshot of the UDF node is kept; second life: restored from it
+	ts.snapAt = map[int]bool{-1: true}
+	rec1, snap, err := runTaskOnce(ts, r, nil)
+	if err != nil || snap == nil {
+		return []*recorder{rec1}, err
+	}
+	rec2, _, err := runTaskOnce(ts, r, snap)
+	return []*recorder{rec1, rec2}, err
+}
+
+func runTaskOnce(ts taskSession, r *rt.Run, restoreFrom *kapacitor.TaskSnapshot) (*recorder, *kapacitor.TaskSnapshot, error) {
 	rec := &recorder{}
+	var lastSnap *kapacitor.TaskSnapshot
 	diag := rt.NewDiag()
 	diag.OnItem = func(it rt.SinkItem) {
 		var item rt.M
@@ -75,7 +105,7 @@ func runTaskSession(ts taskSession, r *rt.Run) (*recorder, error) {
 	}
 	env, err := rt.NewEnv(rt.EnvOpts{Diag: diag})
 	if err != nil {
-		return nil, err
+		return nil, nil, err
 	}
 	defer env.Close()
 	svc := newUDFService(fragFn(ts.frag, r.Rand))
@@ -85,9 +115,37 @@ func runTaskSession(ts taskSession, r *rt.Run) (*recorder, error) {
 	if ts.batch {
 		tt = kapacitor.BatchTask
 	}
+	restoring := false
+	if restoreFrom != nil {
+		env.TM.TaskStore = &snapStore{snap: restoreFrom}
+		for node, b := range restoreFrom.NodeSnapshots {
+			if strings.HasPrefix(node, "echo") {
+				// the UDF node restores its UDF before it takes any data: an invocation made by StartTask
+				rec.ev("Call", rt.M{"kind": "restore", "data": fmt.Sprintf("%x", b)})
+				restoring = true
+			}
+		}
+	}
 	et, err := env.StartTask("t", ts.script, tt, rt.DefaultDBRP)
 	if err != nil {
-		return nil, fmt.Errorf("start %s: %w\n%s", ts.name, err, ts.script)
+		return nil, nil, fmt.Errorf("start %s: %w\n%s", ts.name, err, ts.script)
+	}
+	// waitPost waits until n messages have left the UDF node; it gives up at once when the task has failed
+	// (nothing more will come) and after opDeadline
+	waitPost := func(n int) bool {
+		start := time.Now()
+		for diag.Count("post") < n {
+			for _, x := range diag.Errors() {
+				if x.Msg == "node failed" {
+					return false
+				}
+			}
+			if time.Since(start) > opDeadline {
+				return false
+			}
+			time.Sleep(300 * time.Microsecond)
+		}
+		return true
 	}
 	broken := false
 	snapshot := func() {
@@ -96,13 +154,22 @@ func runTaskSession(ts taskSession, r *rt.Run) (*recorder, error) {
 		if broken {
 			return
 		}
-		if !diag.WaitCount("post", 1, opDeadline) {
+		if !waitPost(1) {
 			rec.ev("OutMissing", rt.M{"want": 1}) // nothing came out of the UDF node: no action explains this line
 			broken = true
 			return
 		}
+		if restoring {
+			// data has come out, so Restore has returned (it precedes the node's input goroutine) - without an
+			// error, or the node would have failed
+			rec.ev("Ret", rt.M{"kind": "restore", "err": ""})
+			restoring = false
+		}
 		rec.ev("Call", rt.M{"kind": "snapshot", "data": ""})
 		snap, err := et.Snapshot()
+		if err == nil {
+			lastSnap = snap
+		}
 		m := rt.M{"kind": "snapshot", "err": errStr(err)}
 		if err == nil {
 			found := false
@@ -122,22 +189,22 @@ func runTaskSession(ts taskSession, r *rt.Run) (*recorder, error) {
 	if ts.batch {
 		cols := env.TM.BatchCollectors("t")
 		if len(cols) != 1 {
-			return nil, fmt.Errorf("%d batch collectors", len(cols))
+			return nil, nil, fmt.Errorf("%d batch collectors", len(cols))
 		}
 		for k, b := range ts.batches {
 			if ts.snapAt[k] {
 				snapshot()
 			}
 			if broken {
-				return rec, nil
+				return rec, nil, nil
 			}
 			if err := cols[0].CollectBatch(b); err != nil {
-				return nil, err
+				return nil, nil, err
 			}
 			// at most `window` items in flight (keeps the number of interleavings TLC has to consider small)
-			if k+1 > ts.window && !diag.WaitCount("post", k+1-ts.window, opDeadline) {
+			if k+1 > ts.window && !waitPost(k+1-ts.window) {
 				rec.ev("OutMissing", rt.M{"want": k + 1 - ts.window})
-				return rec, nil
+				return rec, nil, nil
 			}
 		}
 		cols[0].Close()
@@ -147,14 +214,14 @@ func runTaskSession(ts taskSession, r *rt.Run) (*recorder, error) {
 				snapshot()
 			}
 			if broken {
-				return rec, nil
+				return rec, nil, nil
 			}
 			if err := env.Write("db", "rp", p); err != nil {
-				return nil, err
+				return nil, nil, err
 			}
-			if ts.window > 0 && k+1 > ts.window && !diag.WaitCount("post", k+1-ts.window, opDeadline) {
+			if ts.window > 0 && k+1 > ts.window && !waitPost(k+1-ts.window) {
 				rec.ev("OutMissing", rt.M{"want": k + 1 - ts.window})
-				return rec, nil
+				return rec, nil, nil
 			}
 		}
 		env.WaitIngress()
@@ -175,11 +242,11 @@ func runTaskSession(ts taskSession, r *rt.Run) (*recorder, error) {
 		rec.ev("StopRet", rt.M{"err": e})
 	case <-time.After(opDeadline):
 		rec.ev("StopHang", nil)
-		return rec, nil
+		return rec, nil, nil
 	}
 	sock := svc.last()
 	if sock == nil {
-		return nil, fmt.Errorf("the UDF was never opened")
+		return nil, nil, fmt.Errorf("the UDF was never opened")
 	}
 	var saw []any
 	for _, m := range sock.h.Saw() {
@@ -197,7 +264,7 @@ func runTaskSession(ts taskSession, r *rt.Run) (*recorder, error) {
 		}
 	}
 	rec.ev("Diag", rt.M{"dropped": dropped, "errors": strsAny(errs)})
-	return rec, nil
+	return rec, lastSnap, nil
 }
 
 func RunTask(r *rt.Run) error {
@@ -224,7 +291,7 @@ func RunTask(r *rt.Run) error {
 			ps = pts
 		}
 		sessions = append(sessions, taskSession{name: "stream-" + f.name, window: 2 + i%2, frag: frags[i%len(frags)], points: ps, pad: 100 * i,
-			script: "stream|" + f.from + "|log().prefix('pre')@echo()|log().prefix('post')", snapAt: map[int]bool{1: i%2 == 0, 5: true, -1: true}})
+			script: "stream|" + f.from + "|log().prefix('pre')@" + []string{"echo", "echoProc"}[i%2] + "()|log().prefix('post')", snapAt: map[int]bool{1: i%2 == 0, 5: true, -1: true}})
 	}
 	bts := batchPayloads()
 	for i := 0; i < 3; i++ {
@@ -258,17 +325,24 @@ func RunTask(r *rt.Run) error {
 		taskSession{name: "eval-duration", frag: "2", points: mixed(4)[:4],
 			script: "stream|from().measurement('m')|eval(lambda: if(\"k\" == 2, 1s, 2s)).as('d').keep('k', 'd')|log().prefix('pre')@echo()|log().prefix('post')"},
 	)
+	// a task restarted from its snapshot: the UDF gets back the bytes it supplied (socket and process flavour)
+	for i, u := range []string{"echo", "echoProc"} {
+		sessions = append(sessions, taskSession{name: "restart-" + u, frag: frags[3+i], points: pts[4*i : 4*i+3], pad: 200 + 20000*i, window: 2, restart: true,
+			script: "stream|from().measurement('m')|log().prefix('pre')@" + u + "()|log().prefix('post')"})
+	}
 	_ = models.Fields{}
 	for _, ts := range sessions {
-		rec, err := runTaskSession(ts, r)
+		recs, err := runTaskSession(ts, r)
 		if err != nil {
 			return fmt.Errorf("task session %s: %w", ts.name, err)
 		}
-		t.Reset(rt.M{"mode": "task", "name": ts.name, "frag": ts.frag})
-		for _, e := range rec.evs {
-			name := e["ev"].(string)
-			delete(e, "ev")
-			t.Event(name, e)
+		for life, rec := range recs {
+			t.Reset(rt.M{"mode": "task", "name": ts.name, "frag": ts.frag, "life": life + 1})
+			for _, e := range rec.evs {
+				name := e["ev"].(string)
+				delete(e, "ev")
+				t.Event(name, e)
+			}
 		}
 		t.Distinct(ts.name)
 	}
